@@ -270,7 +270,9 @@ Definition judge (p : str) (sfx : option str) (rules : list rule) (expires : lis
                                 else w_forbidden w
                     | None => w_forbidden w
                     end in
-  let v := if str_eqb p (bytes "C08") then v08
+  let v_done := if str_eqb (cobs_kind o) (bytes "no-response")
+                then verdict false "the request never completed (unbounded internal recursion against the origin)" else v_ok in
+  let v := if str_eqb p (bytes "C08") then first_fail [v_done; v08]
            else if str_eqb p (bytes "C07") then v07
            else if str_eqb p (bytes "C10") then first_fail [v10; v10b]
            else if str_eqb p (bytes "C09") then first_fail [v09; v09b]
